@@ -4,8 +4,11 @@
 (context + added lines). The thorough tier applies them in memory and requires the property's check to fire."""
 import json, glob, os, re
 out = []
+misses = json.load(open('/verif/seeded/KNOWN_MISSES.json'))
 for d in sorted(glob.glob('/verif/seeded/C*')):
     sid = os.path.basename(d)
+    if sid in misses:
+        continue  # documented gap: not a control (DESIGN.md 9.5)
     meta = json.load(open(d + '/meta.json'))
     edits = []
     cur = None
